@@ -408,7 +408,11 @@ func (l *lexer) next() rune {
 }
 
 func (l *lexer) nextToken() Token {
-	return <-l.tokens
+	tok, ok := <-l.tokens
+	if !ok {
+		return Token{Kind: EOF}
+	}
+	return tok
 }
 
 func (l *lexer) peek() rune {
